@@ -193,3 +193,44 @@ Fixpoint mcircuit_forward (c : list clayer) (t : tableau) (coins : list Z)
       | None => None
       end
   end.
+
+(* ---- backward of circuits with measurement: post-selection on a record (+1/-1 per measured qubit, in forward order) ---- *)
+(* StabilizerState.postselect(P, res): requires a pure state; the observable is (-1)^res-signed P *)
+Definition postselect (t : tableau) (p : pauli) (res : Z) : option (tableau * Z) :=
+  if Nat.eqb (rk t) 0 then Some (postselect1 t (fst p, (snd p + res * 2) mod 4)) else None.
+
+(* MeasureLayer.backward: qubits in reverse order, result slice aligned with the qubits *)
+Fixpoint mlayer_backward_rev (t : tableau) (rq : list nat) (rres : list Z) : option tableau :=
+  match rq, rres with
+  | [], _ => Some t
+  | q :: rq', r :: rres' =>
+      match postselect t (z_obs (tN t) q) ((1 - r) / 2) with
+      | Some (t', pr) => if pr =? 0 then None else mlayer_backward_rev t' rq' rres'
+      | None => None
+      end
+  | _ :: _, [] => None
+  end.
+Definition mlayer_backward (t : tableau) (qs : list nat) (res : list Z) : option tableau :=
+  if Nat.eqb (length res) (length qs) then mlayer_backward_rev t (rev qs) (rev res) else None.
+
+Definition count_measured (c : list clayer) : nat :=
+  fold_left (fun acc x => match x with ML q => (acc + length q)%nat | CL _ => acc end) c 0%nat.
+
+(* Circuit.backward with a record: layers in reverse; each measurement layer consumes its slice from the END of the record *)
+Fixpoint mcircuit_backward_rev (rc : list clayer) (t : tableau) (rrecord : list Z) : option tableau :=
+  match rc with
+  | [] => Some t
+  | CL ly :: rest =>
+      match state_apply (layer_backward (tN t) ly) t with
+      | Some t' => mcircuit_backward_rev rest t' rrecord
+      | None => None
+      end
+  | ML qs :: rest =>
+      let k := length qs in
+      match mlayer_backward t qs (rev (firstn k rrecord)) with
+      | Some t' => mcircuit_backward_rev rest t' (skipn k rrecord)
+      | None => None
+      end
+  end.
+Definition mcircuit_backward (c : list clayer) (t : tableau) (record : list Z) : option tableau :=
+  if Nat.eqb (length record) (count_measured c) then mcircuit_backward_rev (rev c) t (rev record) else None.
